@@ -26,11 +26,13 @@ PROPS = {
               'python_mpf_mul_int, mpf_div and mpf_rdiv_int (all of it: special values, power-of-two divisors and general '
               'quotients -- the sticky-bit lemma "rounding 2*floor(N/D)+1 one place lower rounds like N/D" is discharged '
               'through a chain of small ghost assertions) return the correctly rounded value (order-theoretic spec CRound '
-              'taken from the property text). Bounded stand-in (never counted as proved): the sticky-bit shortcut of mpf_add '
-              'for far-apart exponents, checked natively against the same contract clause with exact integer arithmetic '
-              'over an enumerated domain.',
-        note=KERNEL_NOTE + ' Not covered: mpf_sqrt, fsum/fdot, the context-level operator templates.',
-        technique='deductive VCs (z3) + bounded native contract evaluation for one declared sticky-bit gap (mpf_add, far-apart exponents)',
+              'taken from the property text); mpf_sqrt (with isqrt_python / sqrtrem_python) returns the correctly rounded root '
+              'in the floor and down modes, special values and exact powers of four included (spec on squares, no root in the '
+              'spec). Bounded stand-ins (never counted as proved): the sticky-bit shortcut of mpf_add for far-apart exponents '
+              'and mpf_sqrt in the ceiling / up / nearest modes, checked natively against the same contract clause with exact '
+              'integer arithmetic over enumerated domains.',
+        note=KERNEL_NOTE + ' Not covered: fsum/fdot, the context-level operator templates.',
+        technique='deductive VCs (z3) + bounded native contract evaluation for two declared gaps (mpf_add far-apart exponents, mpf_sqrt sticky modes)',
         explanation='mixed: deductive proof for all clauses except the declared gaps (coverage.bounded lists domains and counts)'),
     'C05': dict(
         title='comparisons exact, equal numbers hash equally', level='proof', engines=[],
@@ -267,6 +269,20 @@ PROPS = {
               'poles. Repaired: digamma near negative poles (F16). Known finding F17: digamma has only absolute accuracy near its zero '
               '1.46163... Not covered: complex arguments, fac2, binomial, rf, ff, gammaprod, polygamma, harmonic, barnesg, superfac, hyperfac.',
         note='Reference: the system MPFR through ctypes (trusted), two directed evaluations at p+80 bits; the enumerated domain is written into evidence.coverage.rule. Complex arguments, and functions MPFR does not provide, are not covered.', technique='bounded native check of the accuracy contract against a rigorous MPFR enclosure (stand-in, not a proof)'),
+    'C19': dict(
+        title='zeta-family functions are accurate', level='exploration', engines=['boundedprops'], no_units=True,
+        claim='Bounded only, small real subset: relative error below 2^(8-p) for zeta(s) at real s in -10..50 (quarter steps, near the '
+              'pole, negative half-integers; the trivial zeros are exactly 0), polylog(2, x) for real x <= 1 and bernpoly at rational '
+              'points (exact rational oracle). Not covered: complex arguments (critical strip, Riemann-Siegel), Hurwitz zeta, '
+              'derivatives, altzeta, dirichlet, lerchphi, eulerpoly, stieltjes, primezeta, siegeltheta, siegelz, riemannr.',
+        note='Reference: the system MPFR through ctypes (trusted), two directed evaluations at p+80 bits; the enumerated domain is written into evidence.coverage.rule. Complex arguments, and functions MPFR does not provide, are not covered.', technique='bounded native check of the accuracy contract against a rigorous MPFR enclosure (stand-in, not a proof)'),
+    'C21': dict(
+        title='Bessel, Airy and related functions are accurate', level='exploration', engines=['boundedprops'], no_units=True,
+        claim='Bounded only, small real subset: relative error below 2^(8-p) for besselj(n, x) and bessely(n, x) with integer order '
+              'n in {0, 1, 2, 5, 17} and positive real x from 2^-60 to 333, and airyai on [-40, 40]. Not covered: everything else the '
+              'property lists (non-integer and complex orders and arguments, besseli/k, hankel, airybi, derivatives, struve, kelvin, '
+              'scorer, coulomb, anger/weber, lommel, the zero finders).',
+        note='Reference: the system MPFR through ctypes (trusted), two directed evaluations at p+80 bits; the enumerated domain is written into evidence.coverage.rule. Complex arguments, and functions MPFR does not provide, are not covered.', technique='bounded native check of the accuracy contract against a rigorous MPFR enclosure (stand-in, not a proof)'),
     'C20': dict(
         title='error, exponential and incomplete gamma integrals are accurate', level='exploration', engines=['boundedprops'], no_units=True,
         claim='Bounded only (real arguments): relative error below 2^(8-p) for erf, erfc (incl. tails), ei, e1 (x > 0) and the upper '
@@ -289,8 +305,6 @@ PROPS = {
 }
 
 NOT_APPLICABLE = {
-    'C19': 'accuracy of zeta-family evaluations (Borwein / Euler-Maclaurin / Riemann-Siegel) is analytic',
-    'C21': 'accuracy of Bessel/Airy families is analytic (hypercomb cancellation heuristics, asymptotic switches)',
     'C22': 'accuracy of hypergeometric functions / orthogonal polynomials is analytic',
     'C23': 'accuracy of elliptic/theta/modular/AGM/Lambert W is analytic',
     'C24': 'termination of series summation loops depends on convergence of asymptotic series for the given argument: no ranking function without the analysis (termination of integer loops under contract is reported with their functions)',
